@@ -149,12 +149,20 @@ class EmbedAllPermutationsPass(BasePass):
             extended_targets.append(t)
             extended_datas.append(d)
 
-        # Synthesize all permuted targets
-        circuits: list[Circuit] = await get_runtime().map(
-            self.inner_synthesis.synthesize,
-            extended_targets,
-            extended_datas,
-        )
+        if width == 1:
+            # A one-qudit block has no permutations to embed: the block
+            # itself already implements its (only) target.
+            circuits: list[Circuit] = [
+                circuit.copy() for _ in extended_targets
+            ]
+
+        else:
+            # Synthesize all permuted targets
+            circuits = await get_runtime().map(
+                self.inner_synthesis.synthesize,
+                extended_targets,
+                extended_datas,
+            )
 
         # Store results
         perm_data: dict[
